@@ -731,7 +731,7 @@ def gen_case(seed, i, tier):
     # ---- items gama removes
     removed = []
     if pick("dangling-point", 0.15, dim >= 2):
-        st = [cl for cl in net.clusters if cl.kind == "obs"]
+        st = [cl for cl in net.clusters if cl.kind == "obs" and cl.station is not None]
         cl = st[int(rng.integers(len(st)))]
         q = netgen.Pt("X1", net.points[cl.station].E + 50.0, net.points[cl.station].N + 20.0, 0.0, "free",
                       "free" if dim == 3 else "none", give_xy=bool(rng.uniform() < 0.5), give_z=True)
